@@ -335,7 +335,51 @@ def well_founded(schema):
             continue
         if _filler(t.content_match) is None:
             return False
-    return True
+    return not _library_filler_cycle(schema)
+
+
+def _library_filler_cycle(schema):
+    """does the *library's* way of filling an empty node run in a circle?  `create_and_fill()` fills a type with the first
+    filling a depth-first walk over `match.next` (in edge order, one seen-list) finds, and fills those filler types the
+    same way; where that first choice contains the type itself again (`c1 "block? lf0"` with `c1` the first generatable
+    `block`) the library recurses until RecursionError although a finite filling exists (upstream does the same; DESIGN §7).
+    Such schemas are not "well-founded" for the library and are left out of the random schemas.  The walk is re-done here on
+    the compiled edges, without calling fill_before / create_and_fill."""
+    def gen_ok(t):
+        return not (t.is_text or t.has_required_attrs())
+
+    def first_filling(match):
+        seen = [match]
+
+        def search(m, types):
+            if m.valid_end:
+                return types
+            for e in m.next:
+                if gen_ok(e.type) and e.next not in seen:
+                    seen.append(e.next)
+                    found = search(e.next, types + [e.type])
+                    if found is not None:
+                        return found
+            return None
+        return search(match, [])
+
+    deps = {}
+    for t in schema.nodes.values():
+        if t.is_text or t.is_leaf:
+            continue
+        deps[t.name] = [x.name for x in (first_filling(t.content_match) or [])]
+    state = {}
+
+    def cyclic(n):
+        if state.get(n) == 1:
+            return True
+        if state.get(n) == 2:
+            return False
+        state[n] = 1
+        r = any(cyclic(m) for m in deps.get(n, []))
+        state[n] = 2
+        return r
+    return any(cyclic(n) for n in deps)
 
 
 def random_schema(rng, rejected=None, tries=50):
